@@ -698,6 +698,9 @@ def run_kmsseq(case, agg):
     agg.ok(h8("c06s", case), f"ok:runs={len(case['runs'])}:{case['env']}", sample=case if case["runs"] == [0, 4] and case["env"] == "none" else None)
 
 
+RULE += ". Further stages: " + "key files whose 32 bytes look like text (hex, digits, base64, line break, BOM, armour); create from the directory's artifacts after every encryption of a two-run history"
+
+
 def plan(tier):
     return [
         CaseStage("kms-scripts-in-one-process", lambda: kmsseq_cases(tier), run_kmsseq,
